@@ -14,6 +14,8 @@ GEN = ["Windows", "Loops"]
 # calendar tier A: day_of_year / month / year / season / inferred dates / yearly means as data (translator/extract_calendar.py)
 TARGETS += ["IbicusModel.Lemmas.GenCalendarFns"]
 GEN += ["CalendarFns"]
+TARGETS += ["IbicusModel.Props.Capstone2"]  # capstone 2: C07 stated on the composition of the regenerated pieces (loop spec ∘ per-window program / kernel / ISIMIP wiring); the audit imports it
+GEN += ["Loops", "GridLoops", "DebWin", "Debiasers", "IsimipStep6"]  # the groups the capstone composes (lean_phase regenerates every transitively imported group anyway)
 
 
 # ------------------------------------------------------------------ case generation
